@@ -42,7 +42,8 @@ def states_equal(a, b):
 def seed_case(draw, tier):
     fn = draw(st.sampled_from(["shot_poisson", "shot_gaussian", "read_noise", "dark_current", "rule07", "power_spectrum"]))
     shape = draw(gen.shape2(4, 20))
-    return {"fn": fn, "shape": list(shape), "seed": draw(st.integers(0, 2**32 - 1)),
+    # (seed 0 is a seed like any other - it must not be taken for "no seed": one case in six)
+    return {"fn": fn, "shape": list(shape), "seed": 0 if draw(st.integers(0, 5)) == 0 else draw(st.integers(0, 2**32 - 1)),
             "seed2": draw(st.integers(0, 2**32 - 1)), "level": draw(gen.pos_log(1e3, 1e9)),
             "sigma": draw(gen.pos_log(0.5, 100.0)), "fpn": draw(gen.finite(0.05, 0.4)),
             "pre_seed": draw(st.integers(0, 2**31 - 1))}
@@ -73,7 +74,7 @@ def call_fn(case, seed):
      "every seeded model is a deterministic function of (arguments, seed), different seeds give different frames, "
      "and a seeded call neither reads nor advances the global numpy / python random state", examples=(400, 1500))
 def seeded(case, ctx):
-    ctx.tag("fn:" + case["fn"], "nonsquare" if case["shape"][0] != case["shape"][1] else "square")
+    ctx.tag("fn:" + case["fn"], "nonsquare" if case["shape"][0] != case["shape"][1] else "square", "seed:0" if case["seed"] == 0 else None)
     ctx.nontrivial_if(case["shape"][0] * case["shape"][1] >= 16)
     np.random.seed(case["pre_seed"])
     random.seed(case["pre_seed"])
